@@ -97,6 +97,7 @@ def bounds(tier, seed):
     return dict(
         kinds=["%s/%s" % kd for kd in _kinds()],
         lattices_fps_family=_lattice_specs(tier, "fps"),
+        lattice_strides="quick: none; thorough: ternary 3x3 every 27th (54th for PCov/CUR kinds), binary 3x4 / 4x3 every 8th (16th)",
         lattices_cur_family=_lattice_specs(tier, "cur"),
         special=[l for l, _ in _special(seed)],
         n_to_select="None, every int 1..N, every j/(2N) in (0,1] resolving to >= 1",
@@ -117,8 +118,15 @@ def groups(tier, seed):
         for (n, m, V) in _lattice_specs(tier, family):
             if kind in ("CUR", "PCovCUR") and min(n, m) < 2:
                 continue
-            for X in fam.lattice(n, m, V):
-                datas.append(("L%dx%d" % (n, m), X))
+            # thorough tier: the large lattices are walked on a fixed stride (stated in the bounds)
+            stride = 1
+            if tier == "thorough" and n * m >= 9:
+                stride = 27 if len(V) == 3 else (8 if n * m == 12 else 1)
+                if kind in ("PCovFPS", "PCovCUR", "CUR"):
+                    stride *= 2
+            for i, X in enumerate(fam.lattice(n, m, V)):
+                if i % stride == 0:
+                    datas.append(("L%dx%d" % (n, m), X))
         datas += _special(seed)
         for label, X in datas:
             for cfg in _configs(kind, tier):
@@ -202,7 +210,7 @@ def cases(group):
     kind, d, X, cfg, tier = group["kind"], group["dir"], group["X"], group["cfg"], group["tier"]
     N = sel.n_items(X, d)
     ylist = _ys(len(X), tier) if sel.needs_y(kind) else ([None] + (_ys(len(X))[:1] if d == "sample" else []))
-    lite = tier == "quick" and group["label"].startswith("L3")
+    lite = (tier == "quick" and group["label"].startswith("L3")) or (tier == "thorough" and group["label"] in ("L3x4", "L4x3"))
     if group["mode"] == "cold":
         for y in ylist:
             for init in _inits(kind, N, tier):
